@@ -70,6 +70,14 @@ type Elem struct {
 	Value   interface{}   `json:"val"`
 }
 
+// VarAccess is one attempted read or write of a bound spec variable (see Obs.Accesses).
+type VarAccess struct {
+	Kind string        `json:"kind"` // "r" | "w"
+	Var  string        `json:"var"`
+	Idx  []interface{} `json:"idx"`
+	Ok   bool          `json:"ok"`
+}
+
 // Obs is what one Step observed.
 type Obs struct {
 	Proc    string                 `json:"proc"`
@@ -82,6 +90,10 @@ type Obs struct {
 	Elems   []Elem                 `json:"elems"`
 	Locals  map[string]interface{} `json:"locals"`
 	State   map[string]interface{} `json:"state"`
+	// Accesses lists every access to a bound spec variable attempted in this attempt, in order, including the
+	// ones that failed (false await): the runtime's trace records successful operations only, so e.g. the target of
+	// a `with`-chosen send that aborted on a full buffer is visible only here.
+	Accesses []VarAccess `json:"accesses,omitempty"`
 	// Stale lists reads of archetype-local variables that did not return the value established by the
 	// committed writes so far (e.g. an aborted attempt's write that was not rolled back). Always empty on a
 	// correct runtime; a check should treat a non-empty list as a broken tie.
@@ -118,6 +130,7 @@ type Proc struct {
 
 	// per attempt (written by the archetype goroutine between release and the next arrive)
 	choices    []uint64
+	accessLog  []VarAccess
 	choiceLog  []Choice
 	picks      []interface{}
 	events     []trace.Event
@@ -273,7 +286,7 @@ func (sys *System) Step(name string, choices []uint64) Obs {
 		return obs
 	}
 	obs.Label = p.pc
-	p.choiceLog, p.picks, p.events = nil, nil, nil
+	p.choiceLog, p.picks, p.events, p.accessLog = nil, nil, nil, nil
 	p.atGate = false
 	p.release <- gateCmd{choices: choices}
 	out := p.await(sys.Timeout)
@@ -304,6 +317,7 @@ func (sys *System) Step(name string, choices []uint64) Obs {
 	if p.picks != nil {
 		obs.Picks = p.picks
 	}
+	obs.Accesses = p.accessLog
 	obs.Locals, obs.State = p.encLocals(), sys.State.Snapshot()
 	return obs
 }
